@@ -94,7 +94,7 @@ fn io_err(e: &std::io::Error) -> String {
 
 /// hex for small outputs, length + fnv digest for big ones (the checker recomputes the digest)
 pub fn out_field(name: &str, b: &[u8]) -> String {
-    if b.len() <= 70000 {
+    if b.len() <= 400000 {
         format!("\"{}\":\"{}\"", name, hex(b))
     } else {
         let mut h: u64 = 0xcbf29ce484222325;
@@ -276,23 +276,24 @@ macro_rules! world_table {
                 if let Some((ce, _cd, se, _sd)) = halves.as_mut() {
                     // plaintext -> values (enum reader) -> encrypted writer
                     let mut enc = Vec::new();
+                    let mut plain2: Vec<u8> = Vec::new();
                     let mut c = Cursor::new(plain);
                     let mut n = 0;
                     while (c.position() as usize) < plain.len() {
                         if dir == "client" {
                             match ClientOpcodeMessage::read_unencrypted(&mut c) {
-                                Ok(m) => { let _ = m.write_encrypted_client(&mut enc, ce); }
+                                Ok(m) => { let _ = m.write_encrypted_client(&mut enc, ce); let _ = m.write_unencrypted_client(&mut plain2); }
                                 Err(e) => { s.push_str(&format!("\"prep_err\":{{{},\"at\":{}}},", world_err(&e), n)); break; }
                             }
                         } else {
                             match ServerOpcodeMessage::read_unencrypted(&mut c) {
-                                Ok(m) => { let _ = m.write_encrypted_server(&mut enc, se); }
+                                Ok(m) => { let _ = m.write_encrypted_server(&mut enc, se); let _ = m.write_unencrypted_server(&mut plain2); }
                                 Err(e) => { s.push_str(&format!("\"prep_err\":{{{},\"at\":{}}},", world_err(&e), n)); break; }
                             }
                         }
                         n += 1;
                     }
-                    s.push_str(&format!("{},", out_field("enc", &enc)));
+                    s.push_str(&format!("{},{},", out_field("enc", &enc), out_field("plain2", &plain2)));
                     data = enc;
                 }
                 let mut c = Cursor::new(&data[..]);
